@@ -67,7 +67,14 @@ package gtab
 // ---- applying lookups (layout.go) ----
 //@ pred llOK(ctx *Context) = forall i int :: 0 <= i && i < len(ctx.ll) ==> ctx.ll[i] != nil && ctx.ll[i].Meta != nil && forall j int :: 0 <= j && j < len(ctx.ll[i].Subtables) ==> ctx.ll[i].Subtables[j] != nil
 //@ pred keepOK(ctx *Context) = ctx.keep != nil ==> ctx.keep.Meta != nil && ctx.keep.Gdef != nil
-//@ pred stackinv(ctx *Context) = forall k int :: 0 <= k && k < len(ctx.stack) ==> ctx.stack[k] != nil && 0 <= ctx.stack[k].EndPos && ctx.stack[k].EndPos <= len(ctx.seq) && forall i int :: 0 <= i && i < len(ctx.stack[k].InputPos) ==> 0 <= ctx.stack[k].InputPos[i] && ctx.stack[k].InputPos[i] < ctx.stack[k].EndPos
+// The stack of pending nested actions: every entry lies inside the glyph
+// sequence (sinvPos), owns its position list - no two entries share one
+// (sinvOwn), and the Context's scratch slice is not the list of any entry
+// (sinvScratch).
+//@ pred sinvPos(ctx *Context) = forall k int :: 0 <= k && k < len(ctx.stack) ==> ctx.stack[k] != nil && 0 <= ctx.stack[k].EndPos && ctx.stack[k].EndPos <= len(ctx.seq) && forall i int :: 0 <= i && i < len(ctx.stack[k].InputPos) ==> 0 <= ctx.stack[k].InputPos[i] && ctx.stack[k].InputPos[i] < ctx.stack[k].EndPos
+//@ pred sinvScratch(ctx *Context) = forall k int :: 0 <= k && k < len(ctx.stack) ==> isnil(ctx.scratch) || ref(ctx.stack[k].InputPos) != ref(ctx.scratch)
+//@ pred sinvOwn(ctx *Context) = forall k int :: forall j int :: 0 <= k && k < len(ctx.stack) && 0 <= j && j < len(ctx.stack) && j != k ==> isnil(ctx.stack[k].InputPos) || ref(ctx.stack[j].InputPos) != ref(ctx.stack[k].InputPos)
+//@ pred stackinv(ctx *Context) = sinvPos(ctx) && sinvScratch(ctx) && sinvOwn(ctx)
 
 // Assumed contract of the Subtable interface (implementations under contract
 // are checked against the same clauses).
